@@ -61,6 +61,18 @@ def cases(tier, inst):
         for t in (("or", a, ("and", a, b)), ("and", ("or", a, b), a), ("or", b, ("and", a, a)), ("and", a, ("or", b, a)),
                   ("or", ("and", a, b), a), ("and", a, a), ("or", a, a)):
             yield (t, "let", "sharedc")
+    # ONE negated leaf (s = not_(x.flag), s = not_(x.p < 2)) or one truth-position expression (s = x.flag) written once and
+    # used in several places: the negated object as a whole is reused, never one object negated in one place only
+    reps_n = REPRESENTATIVE_8 if tier == "thorough" else REPRESENTATIVE_4
+    for a0 in reps_n:
+        for a in ([("not", a0)] + ([a0] if a0[0] == "t" else [])):
+            for b in reps_n:
+                if b == a0:
+                    continue
+                for t in (("or", a, ("and", a, b)), ("and", ("or", a, b), a), ("or", b, ("and", a, a)),
+                          ("and", a, ("or", b, a)), ("or", ("and", a, b), a), ("and", a, a), ("or", a, a),
+                          ("and", ("or", a, b), ("or", a, ("not", b)))):
+                    yield (t, "let", "sharedn")
     # conditions that mention no variable: a membership test between two constants, a plain Python bool (the signatures of
     # entity / an / and_ / or_ accept `bool`) - alone next to a real condition, and inside and_ / or_ on either side
     consts = [("in", L(3), L((1, 2, 3))), ("in", L(5), L((1, 2, 3))), ("has", L((1, 2)), L(2)), ("const", "True"), ("const", "False")]
@@ -76,6 +88,13 @@ def cases(tier, inst):
     # domain objects whose class has a field called `_id_` with the same value in every instance: they are distinct objects
     for t in trees_by_depth(REPRESENTATIVE_8 if tier == "thorough" else REPRESENTATIVE_4, 1):
         yield (t, "let", "idattr")
+    # the SHAPE of the supplied domain: empty, holding no object of the variable's type (objects of another class, plain
+    # values), holding such non-members between the members - as a list, a tuple, a generator, through From(); objects of
+    # the variable's type exist elsewhere in the program (the registry is not a substitute for a domain that was given)
+    for kind in DOMSHAPES:
+        for t in trees_by_depth(REPRESENTATIVE_8 if tier == "thorough" else REPRESENTATIVE_4, 1):
+            for style in ("let", "from", "lettuple", "letgen"):
+                yield (t, style, "dom:" + kind)
     # three operands given to and_() / or_() / entity()
     for a, b, c in itertools.product(REPRESENTATIVE_8 if tier == "thorough" else REPRESENTATIVE_4, repeat=3):
         yield (("andf", a, b, c), "let", "op")
@@ -103,22 +122,44 @@ def query_of(case):
     return ("Q", "an", "entity0" if form == "noentity" else "entity", X, conds, (("x", style, "Item", "D"),))
 
 
+_GRID_ROWS = WSPEC[-1][2]
+_FOREIGN = (("cls", "Other", ("p", 2), ("q", 2)), ("raw", 5), ("cls", "Other", ("p", 3), ("q", 1)), ("raw", None), ("raw", "s"))
+DOMSHAPES = {
+    "empty": (),
+    "foreign": _FOREIGN,
+    "mixed": tuple(r for i, row in enumerate(_GRID_ROWS) for r in ((row, _FOREIGN[i % len(_FOREIGN)]) if i % 2 else (row,))),
+    "foreign_first": _FOREIGN[:2] + _GRID_ROWS[:4],
+}
+
+
+def wspec_for(form):
+    if form == "idattr":
+        return WSPEC_ID
+    if form.startswith("dom:"):
+        # the members keep their spec index as tag, the grid of kid objects (class Item too) stays: Items exist elsewhere
+        return WSPEC[:-1] + (("D", "Item", DOMSHAPES[form[4:]]),)
+    return WSPEC
+
+
 WSPEC_ID = tuple((dk, "IdItem" if dk == "D" else cls, rows) for dk, cls, rows in WSPEC)
+
+
+SHARE_CONDS = {"sharedc": True, "sharedn": "neg"}
 
 
 def run_case(case, inst):
     q = query_of(case)
     tree = case[0]
-    wspec = WSPEC_ID if case[2] == "idattr" else WSPEC
+    wspec = wspec_for(case[2])
 
     def body():
         world = build_world(wspec, inst)
-        got = eval_entity(q, world, inst, share_terms=(case[2] == "shared"), share_conds=(case[2] == "sharedc"))
+        got = eval_entity(q, world, inst, share_terms=(case[2] == "shared"), share_conds=SHARE_CONDS.get(case[2], False))
         exp = [env["x"] for env in Q.Ref(world, inst).solutions(q)]
         # built afresh on a fresh world: a FIRST evaluation closed after two results, then evaluated fully, twice
         world2 = build_world(wspec, inst)
         later = eval_entity_after_partial(q, world2, inst, share_terms=(case[2] == "shared"),
-                                          share_conds=(case[2] == "sharedc"))
+                                          share_conds=SHARE_CONDS.get(case[2], False))
         exp2 = [env["x"] for env in Q.Ref(world2, inst).solutions(q)]
         return got, exp, len(world["D"]), later, exp2
 
@@ -140,7 +181,7 @@ def run_case(case, inst):
 
 
 def describe(case, inst):
-    return (Q.up_world(WSPEC, inst) + "\n" + Q.up_query(query_of(case), inst)
+    return (Q.up_world(wspec_for(case[2]), inst) + "\n" + Q.up_query(query_of(case), inst)
             + "\nresult = list(q.evaluate())   # expected: [o for o in D if <condition>(o)], same order, by identity"
             "\n# and, built afresh: it = q.evaluate(); next(it, None); next(it, None); it.close(); list(q.evaluate()); "
             "list(q.evaluate())   # expected (both): the same")
